@@ -113,7 +113,15 @@ impl SwiftField for Field53B {
         //   - Starts with '/' -> party_identifier
         //   - Looks like BIC (8-11 uppercase alphanumeric) -> party_identifier
         //   - Otherwise -> location
-        if lines.len() >= 2 {
+        if lines.len() > 2 {
+            return Err(ParseError::InvalidFormat {
+                message: format!(
+                    "Field53B has at most 2 lines (party identifier, location), found {}",
+                    lines.len()
+                ),
+            });
+        }
+        if lines.len() == 2 {
             // Two lines: first is party_identifier, second is location
             if !lines[0].is_empty() {
                 party_identifier = Some(parse_field53b_party_identifier(lines[0])?);
